@@ -74,3 +74,15 @@ def run(ctx):
         ctx.hit("nondeterministic-suggestions", outs[0][1][-300:], dict(kind="impl-counterexample", tool="c02suggest", seed=ctx.seed, output=outs[0][1][-2000:]))
     ctx.cov["evaluations"] += n * 4
     ctx.add_distribution({"suggest.requests": n * 4})
+    # a database of the shipped size with exactly tied entries, NLP searches repeated and re-loaded
+    outs = []
+    for k in range(2):
+        p = subprocess.run([core.HARNESS_BIN, "tool", "c02big", str(ctx.seed), "5000" if quick else "9000"], stdout=subprocess.PIPE, stderr=subprocess.PIPE,
+                           env=core.go_env(), text=True, timeout=1800)
+        outs.append((p.returncode, p.stdout))
+    ok = all(rc == 0 for rc, _ in outs) and outs[0][1] == outs[1][1]
+    ctx.oblige("determinism:large-database(repeat, reload, 2 processes)", "correspondence", ok, outs[0][1][-600:] + (outs[1][1][-300:] if outs[0][1] != outs[1][1] else ""))
+    if not ok:
+        ctx.hit("nondeterministic-ranking", "large database: " + (outs[0][1] if outs[0][0] else outs[1][1])[-300:], dict(kind="impl-counterexample", tool="c02big", seed=ctx.seed, output=outs[0][1][-2000:], second_process=outs[1][1][-2000:]))
+    ctx.cov["evaluations"] += 12
+    ctx.add_distribution({"large-db.requests": 12})
